@@ -37,6 +37,11 @@ func c11Line(g *Gen) string {
 	case 0:
 		return ""
 	case 1:
+		if g.Chance(1, 3) {
+			// the shortest lines that are rules: one-, two- and three-byte names (a bare name is a hosts entry), wherever
+			// they stand — also as the last line of a content without a final line break
+			return Pick(g, []string{"tv", "io", "ab", "de", "a", "x", "a.b", "t.co", "ai", "::", "@@", "||", "a^", "/a"})
+		}
 		return Pick(g, []string{"! comment", "# comment", "! комментарий", "   ", "\t", "#"})
 	case 2:
 		return Pick(g, cosmeticLines)
@@ -107,6 +112,9 @@ func c11Content(g *Gen) string {
 	}
 	for i := 0; i < n; i++ {
 		l := strings.NewReplacer("\n", "", "\r", "").Replace(c11Line(g))
+		if i == n-1 && g.Chance(1, 6) {
+			l = Pick(g, []string{"tv", "io", "ab", "a", "x.y", "de"})
+		}
 		sb.WriteString(l)
 		if i < n-1 || g.Chance(2, 3) {
 			if g.Chance(1, 12) {
